@@ -200,6 +200,15 @@ func (r *Report) tryReplay(o *Obligation, rp map[string]interface{}, dir string)
 // runReplay runs the generated test against the real code. ok = the real code misbehaved as predicted.
 func runReplay(repo string, plan *replayPlan) (bool, string) {
 	ov := map[string]map[string]string{"Replace": {filepath.Join(repo, plan.Dir, "zz_govc_replay_test.go"): plan.TestFile}}
+	// packages that import the cgo VM only build with the contract-package stub (tools/stub/overlay.json)
+	if data, err := os.ReadFile("/verif/tools/stub/overlay.json"); err == nil {
+		var stub struct{ Replace map[string]string }
+		if json.Unmarshal(data, &stub) == nil {
+			for k, v := range stub.Replace {
+				ov["Replace"][filepath.Join(repo, k)] = v
+			}
+		}
+	}
 	ovb, _ := json.Marshal(ov)
 	ovf := plan.TestFile + ".overlay.json"
 	os.WriteFile(ovf, ovb, 0o644)
